@@ -17,6 +17,7 @@ type Issue struct {
 	Spec   string            `json:"spec,omitempty"`
 	Detail string            `json:"detail,omitempty"`
 	Known  string            `json:"known,omitempty"` // id in known_findings.json this matches
+	Runner string            `json:"runner,omitempty"` // the runner that re-executes Input (replay)
 }
 
 type Result struct {
@@ -34,8 +35,10 @@ type Result struct {
 	Violations  []Issue        `json:"violations"`
 	KnownHits   []string       `json:"known_hits"`
 	Notes       []string       `json:"notes"`
+	SeenKeys    []string       `json:"seen_keys,omitempty"` // only in the result of an isolated child run
 
 	seen map[string]struct{}
+	cur  string // the runner executing now
 }
 
 func NewResult(prop, tier string, seed uint64) *Result {
@@ -68,14 +71,14 @@ const maxIssues = 25
 
 func (r *Result) Mismatch(name string, input map[string]string, impl, model string) {
 	if len(r.Mismatches) < maxIssues {
-		r.Mismatches = append(r.Mismatches, Issue{Kind: "mismatch", Name: name, Input: input, Impl: impl, Model: model})
+		r.Mismatches = append(r.Mismatches, Issue{Kind: "mismatch", Name: name, Input: input, Impl: impl, Model: model, Runner: r.cur})
 	}
 	r.Dist["MISMATCH:"+name]++
 }
 
 func (r *Result) Violation(name string, input map[string]string, impl, spec, detail string) {
 	if len(r.Violations) < maxIssues {
-		r.Violations = append(r.Violations, Issue{Kind: "violation", Name: name, Input: input, Impl: impl, Spec: spec, Detail: detail})
+		r.Violations = append(r.Violations, Issue{Kind: "violation", Name: name, Input: input, Impl: impl, Spec: spec, Detail: detail, Runner: r.cur})
 	}
 	r.Dist["VIOLATION:"+name]++
 }
